@@ -1,4 +1,118 @@
+//! C17 — CL03 proofs do not hand the verifier the openings they are meant to hide (form C: attacker-side recomputation
+//! over every {value, randomness} object and every leaf pair of every explored serialized proof).
+#![allow(non_snake_case)]
+use crate::c14::holder;
+use crate::c15::honest;
 use crate::common::*;
+use mccore::{int_leaf_paths, json_get, par_for, path_class, subsets, O};
+use rug::Integer;
+use serde_json::{json, Value};
 use zkryptium::cl03::keys::{CL03PublicKey, CL03SecretKey};
 use zkryptium::schemes::algorithms::{Scheme, CL03};
-pub fn run<CS: Suite>(_env: &Env) where CL03<CS>: Scheme<PubKey = CL03PublicKey, PrivKey = CL03SecretKey>, CS::HashAlg: sha2::Digest {}
+
+/// One serialized proof as the recipient sees it, with what the harness (not the recipient) knows about the prover's secrets.
+pub struct Item {
+    pub id: String,
+    pub kind: &'static str, // "issuance" | "signature-proof"
+    pub n: usize,
+    pub hidden: Vec<usize>,
+    pub proof: Value,
+    pub m: Vec<Integer>,
+    /// named secrets the prover holds (hidden attributes, e, s, v, holder commitment randomness)
+    pub secrets: Vec<(String, Integer)>,
+    /// public values the recipient also has besides the proof (commitment C of an issuance request)
+    pub public_extra: Vec<(String, Integer)>,
+}
+
+pub fn collect<CS: Suite>(env: &Env, w: &World<CS>, maxn: usize, label: &str) -> Vec<Item>
+where CL03<CS>: Scheme<PubKey = CL03PublicKey, PrivKey = CL03SecretKey>, CS::HashAlg: sha2::Digest {
+    let seed = env.ctx.seed;
+    let mut specs: Vec<(&'static str, usize, Vec<usize>, bool)> = Vec::new();
+    for n in 1..=maxn { for u in subsets(n) {
+        if !u.is_empty() { specs.push(("issuance", n, u.clone(), false)); if n == 2 && u == vec![1] { specs.push(("issuance", n, u.clone(), true)); } }
+        specs.push(("signature-proof", n, u.clone(), false));
+    } }
+    let out = std::sync::Mutex::new(Vec::new());
+    par_for(&specs, |_, (kind, n, u, trusted)| {
+        let m = distinct_attrs(seed, label, *n);
+        let id = format!("{}/{}/n{}/hidden{:?}{}", CS::NAME, kind, n, u, if *trusted { "/trusted" } else { "" });
+        if *kind == "issuance" {
+            match holder::<CS>(w, *n, &m, u, *trusted) {
+                O::Ok(f) => { let mut secrets: Vec<(String, Integer)> = u.iter().map(|&i| (format!("hidden m_{}", i), m[i].clone())).collect(); secrets.push(("commitment randomness r".into(), f.c.randomness().clone()));
+                    let mut pe = vec![("C".to_string(), f.c.value().clone())]; if let Some(ct) = &f.c_trusted { pe.push(("C_trusted".into(), ct.value().clone())); secrets.push(("trusted commitment randomness".into(), ct.randomness().clone())); }
+                    out.lock().unwrap().push(Item { id, kind, n: *n, hidden: u.clone(), proof: to_json(&f.zkpok), m: m.clone(), secrets, public_extra: pe }); }
+                o => env.machinery(&format!("holder side failed for {}: {}", id, o.describe())),
+            }
+        } else {
+            match honest::<CS>(w, *n, &m, u) {
+                O::Ok((sig, p)) => { let sj = to_json(&sig); let mut secrets: Vec<(String, Integer)> = u.iter().map(|&i| (format!("hidden m_{}", i), m[i].clone())).collect();
+                    for k in ["e", "s", "v"] { secrets.push((format!("signature {}", k), leaf_int(&sj["CL03"][k]).unwrap())); }
+                    out.lock().unwrap().push(Item { id, kind, n: *n, hidden: u.clone(), proof: to_json(&p), m: m.clone(), secrets, public_extra: vec![] }); }
+                o => env.machinery(&format!("proof_gen failed for {}: {}", id, o.describe())),
+            }
+        }
+    });
+    let mut v = out.into_inner().unwrap();
+    v.sort_by(|a, b| a.id.cmp(&b.id));
+    v
+}
+
+pub fn run<CS: Suite>(env: &Env)
+where CL03<CS>: Scheme<PubKey = CL03PublicKey, PrivKey = CL03SecretKey>, CS::HashAlg: sha2::Digest {
+    let maxn = if env.thorough() { 3 } else { 2 };
+    let w: World<CS> = World::generate(maxn);
+    let items = collect::<CS>(env, &w, maxn, "c17");
+    env.ctx.set_rule("every honest issuance proof (all non-empty hidden subsets, + one with trusted party) and signature proof (all subsets), n <= 2 (thorough 3). In the JSON view: (i) every object shaped {value, randomness} and (ii) every ordered pair of integer leaves (quick: sibling pairs under one parent; thorough: all ordered pairs) is tested as an opening (V, R): for every public base pair (g, h, N) in {(a_i, b, N)} u {(g_i, h_c, N)} u {(g_i', h', N') of the trusted key} and every secret x the prover holds (hidden m_i, e, s, v, r): V != g^x * h^R; V * g^(-R) != v; the full-vector opening V = prod g_i^{m_i} * h^R with revealed attributes known; and the dictionary attack with candidates {true value, true value + 1}: the test must not single out the true candidate. State = (proof, leaf pair); non-trivial = at least one modular recomputation against a real serialized proof.");
+    par_for(&items, |_, it| {
+        if !env.want(&it.id) || env.ctx.out_of_time() { return; }
+        let n = it.n;
+        let leaves = int_leaf_paths(&it.proof);
+        let val = |p: &Vec<String>| leaf_int(json_get(&it.proof, p).unwrap()).unwrap();
+        // candidate (V, R) pairs
+        let mut pairs: Vec<(Vec<String>, Vec<String>)> = Vec::new();
+        for a in &leaves { for b in &leaves {
+            if a == b { continue; }
+            let siblings = a.len() == b.len() && a[..a.len() - 1] == b[..b.len() - 1];
+            if env.thorough() || siblings { pairs.push((a.clone(), b.clone())); }
+        } }
+        // public base pairs
+        let mut bases: Vec<(String, Integer, Integer, Integer)> = Vec::new();
+        for i in 0..n { bases.push((format!("(a_{}, b, N)", i), w.bases.0[i].clone(), w.pk.b.clone(), w.pk.N.clone())); bases.push((format!("(g_{}, h, N)", i), w.cpk.g_bases[i].clone(), w.cpk.h.clone(), w.cpk.N.clone())); bases.push((format!("(g'_{}, h', N')", i), w.cpk_own.g_bases[i].clone(), w.cpk_own.h.clone(), w.cpk_own.N.clone())); }
+        let families: Vec<(&str, Vec<Integer>, Integer, Integer)> = vec![("(a_*, b, N)", w.bases.0[..n].to_vec(), w.pk.b.clone(), w.pk.N.clone()), ("(g_*, h, N)", w.cpk.g_bases[..n].to_vec(), w.cpk.h.clone(), w.cpk.N.clone()), ("(g'_*, h', N')", w.cpk_own.g_bases[..n].to_vec(), w.cpk_own.h.clone(), w.cpk_own.N.clone())];
+        let v_sig = it.secrets.iter().find(|s| s.0 == "signature v").map(|s| s.1.clone());
+        let det0 = json!({"suite": CS::NAME, "proof": it.id, "n": n, "hidden": it.hidden});
+        for (pv, pr) in &pairs {
+            let (V, R) = (val(pv), val(pr));
+            let shaped = pv.last().map(|x| x == "value").unwrap_or(false) && pr.last().map(|x| x == "randomness").unwrap_or(false);
+            env.ctx.state(&[it.id.as_bytes(), pv.join("/").as_bytes(), pr.join("/").as_bytes()]);
+            env.ctx.step();
+            let pc = format!("/{} with /{}", path_class(pv), path_class(pr));
+            let mut hit = |cls: &str, what: String| { env.ctx.violation(&format!("C17:{}:{}", cls, pc), &what, env.case(&it.id, json!({"base": det0, "value_leaf": pv.join("/"), "randomness_leaf": pr.join("/")}))); };
+            for (bn, g, h, nn) in &bases {
+                let hr = modpow(h, &R, nn);
+                for (sn, x) in &it.secrets {
+                    if (modpow(g, x, nn) * &hr) % nn == V.clone() % nn && V < *nn { hit("opening-of-secret", format!("value = g^x * h^randomness for x = {} with bases {}", sn, bn)); }
+                }
+                // dictionary attack on a single hidden attribute: true candidate vs true + 1
+                for &i in &it.hidden {
+                    let t = (modpow(g, &it.m[i], nn) * &hr) % nn == V; let f = (modpow(g, &(it.m[i].clone() + 1u32), nn) * &hr) % nn == V;
+                    if t && !f { hit("dictionary-attack", format!("the test value = g^cand * h^R singles out the true hidden m_{} with bases {}", i, bn)); }
+                }
+                // recover v from a commitment v * g^w with w published
+                if let Some(vs) = &v_sig { if (V.clone() * modpow(g, &(-R.clone()), nn)) % nn == *vs { hit("recovers-v", format!("value * g^(-randomness) = v with base {}", bn)); } }
+            }
+            // full-vector opening with the revealed attributes known to the recipient: candidates for the hidden ones true / true+1
+            for (fname, gs, h, nn) in &families {
+                let hr = modpow(h, &R, nn);
+                let mut acc_true = hr.clone(); let mut acc_alt = hr.clone();
+                for i in 0..n { acc_true = (acc_true * modpow(&gs[i], &it.m[i], nn)) % nn; let alt = if it.hidden.contains(&i) { it.m[i].clone() + 1u32 } else { it.m[i].clone() }; acc_alt = (acc_alt * modpow(&gs[i], &alt, nn)) % nn; }
+                if !it.hidden.is_empty() && acc_true == V && acc_alt != V { hit("dictionary-attack-full-vector", format!("value = prod g_i^m_i * h^R confirms the hidden attributes with bases {}", fname)); }
+            }
+            env.ctx.class(if shaped { "value/randomness object" } else { "leaf pair" });
+            env.ctx.trace();
+        }
+        // the mere presence of a field named `randomness` next to a commitment value is recorded (not a verdict by itself)
+        env.ctx.add_extra("randomness_leaves_seen", leaves.iter().filter(|p| p.last().map(|x| x == "randomness").unwrap_or(false)).count() as u64);
+        if it.n == 2 && it.hidden == vec![1] { env.ctx.sample(json!({"proof": it.id, "leaves": leaves.len(), "pairs_tested": pairs.len(), "base_pairs": bases.len()})); }
+    });
+}
